@@ -182,7 +182,7 @@ func (c *Ctx) errNotDropped(fn *ssa.Function, call *ssa.Call) (bool, string) {
 // C11: the ledger recovers to a consistent height after a crash at any persist point.
 func C11(c *Ctx) {
 	r := c.R
-	r.Rule("R11.1", "write order of one block commit: the state store is committed before the chain store is touched (PersistBlockData); inside the chain store the blockfile append and every index write precede the commit of the batch that carries the chain meta (PersistExecutionResult). Operations started in sibling goroutines count as unordered.")
+	r.Rule("R11.1", "write order of one block commit: the state store is committed before the chain store is touched (PersistBlockData); inside the chain store the blockfile append and every index write precede the commit of the batch that carries the chain meta (PersistExecutionResult). Operations started in sibling goroutines count as unordered. No function on that path (the two owners of the batch and every chain-ledger helper that receives it) writes to the chain store directly.")
 	r.Rule("R11.2", "one atomic state write: SimpleLedger.Commit puts the block's data, its journal record and the max-height marker into one storage batch, commits that batch exactly once, touches the state store directly (outside the batch) nowhere before that commit, and updates the in-memory height / prunes old journals only after it.")
 	r.Rule("R11.3", "start-up reconciliation: ledger.New returns a ledger only across the success edge of Rollback(chain meta height); NewChainLedgerImpl compares the blockfile size with the chain meta and truncates the surplus before returning; NewSimpleLedger refuses to open when the journal of its recorded height is missing.")
 	r.Rule("R11.4", "no dropped persistence error: the error results of StateLedger.Commit, PersistExecutionResult, AppendBlock, TruncateBlocks, persistChainMeta, removeJournalsBeforeBlock, RollbackState and RollbackBlockChain are tested at every call site of the ledger / executor / genesis packages, and the failure edge ends in a panic or an error return.")
@@ -253,6 +253,8 @@ func C11(c *Ctx) {
 			r.Check(okAll && nUse >= 3, "R11.1", "PersistExecutionResult: index writes and chain meta enter the batch before its commit", c.P.Pos(pe.Pos()), fmt.Sprintf("%d batch uses precede the commit", nUse), "an index write is lost or lands in a later commit: "+why2)
 		}
 	}
+
+	c.chainBatchDiscipline("R11.1")
 
 	// R11.2
 	if commit := c.fn("R11.2", "internal/ledger.(*SimpleLedger).Commit"); commit != nil {
@@ -501,4 +503,48 @@ func C11(c *Ctx) {
 	if rbk := c.fn("R11.1", chainPrefix+"RollbackBlockChain"); rbk != nil {
 		r.Note("R11.1", "RollbackBlockChain: blockfile truncated before the index batch commits", c.P.Pos(rbk.Pos()), "a crash during a rollback can leave the chain meta above the blockfile; not part of a block commit, see DESIGN.md")
 	}
+}
+
+// chainBatchDiscipline: nothing on the chain-store persist / rollback path writes around the block's batch.
+func (c *Ctx) chainBatchDiscipline(rule string) {
+	r := c.R
+	isDirectWrite := func(in ssa.Instruction) bool {
+		call, ok := in.(ssa.CallInstruction)
+		if !ok || core.CalleeObj(call) == nil {
+			return false
+		}
+		n := core.CalleeObj(call).Name()
+		rv := core.Receiver(call)
+		return (n == "Put" || n == "Delete") && rv != nil && strings.HasSuffix(rv.Type().String(), "storage.Storage")
+	}
+	nBatchFns := 0
+	for _, fn := range c.P.ModuleFuncs(true) {
+		if core.PkgOf(fn) != ledgerPkg || fn.Parent() != nil {
+			continue
+		}
+		// functions of the chain ledger that receive the write batch of a block (prepareBlock,
+		// prepareTransactions, persistChainMeta, removeChainDataOnBlock ..) and the two functions that own it
+		takesBatch := false
+		for _, p := range fn.Params {
+			if strings.HasSuffix(p.Type().String(), "storage.Batch") {
+				takesBatch = true
+			}
+		}
+		name := fn.Name()
+		if !takesBatch && name != "PersistExecutionResult" && name != "RollbackBlockChain" {
+			continue
+		}
+		if fn.Signature.Recv() == nil || !strings.HasSuffix(core.RecvTypeName(fn.Signature.Recv().Type()), "ledger.ChainLedgerImpl") {
+			continue
+		}
+		nBatchFns++
+		ds := sites(fn, isDirectWrite)
+		key := "ChainLedgerImpl." + name + ": writes only through the batch"
+		if len(ds) == 0 {
+			r.OK(rule, key, c.P.Pos(fn.Pos()), "no direct Put / Delete on the chain store")
+		} else {
+			r.Bad(rule, key, c.P.Pos(ds[0].Pos()), "a function on the chain store's persist / rollback path writes to the store directly ("+shortCallee(ds[0].(ssa.CallInstruction))+") instead of into the block's batch: the entry becomes durable before (or without) the batch that carries the chain meta, so a crash in between leaves index entries or a chain meta of a block that was never committed")
+		}
+	}
+	r.Floor(rule, "chain-ledger functions on the batch path", nBatchFns, 4)
 }
